@@ -370,6 +370,7 @@ fn main() {
                     }
                     let mut checks = file_engine::validator_checks(tmp.path());
                     checks.extend(file_engine::serve_checks(&rt, tmp.path()));
+                    checks.extend(file_engine::reuse_checks(&rt, tmp.path()));
                     let id = format!("{}-H{}", prop, k);
                     let c = file_engine::FileCase { kind: 0, size: 5, a: 1, e: 4, truncs: vec![], companion: None, class: "H:validators-and-serve".into() };
                     let mut c2 = vec![];
